@@ -52,7 +52,7 @@ ASSUMPTIONS = [
     "raw binary (numpy.fromfile) needs a real file descriptor: an in-memory stream is not an access path for it",
     "raw binary carries no dtype/shape: it is read back with dtype= its stored dtype and compared flattened",
     "key= is exercised for npz and hdf5 (the containers that have entries); Kaldi tables/pipes are not exercised",
-    "a decoder returning an array from damaged bytes is legal; only raising, hanging (a whole batch of <= 40 decodes taking > 90 s) or crashing is judged",
+    "a decoder returning an array from damaged bytes is legal; only raising is judged for every decoder; hanging (a batch of <= 40 decodes, normally 0.2 s, taking > 30 s) or crashing the process is judged for the repository's own SPHERE decoder and only counted (probes dependency_hang / dependency_crash) for third-party decoders",
     "no address-space limit is imposed (RLIMIT_AS with torch loaded is unsafe); lying headers rely on the allocator "
     "refusing absurd sizes, which is what a deployment sees too",
     "sampling, not proof",
@@ -257,8 +257,8 @@ def _child(cases_bytes, wfd):
     out = os.fdopen(wfd, "w")
     devnull = os.open(os.devnull, os.O_WRONLY)
     os.dup2(devnull, 2)  # third-party decoders are noisy on stderr
-    signal.signal(signal.SIGALRM, signal.SIG_DFL)  # a hang kills this child; the parent reports WDS_HANG
-    signal.alarm(90)
+    signal.signal(signal.SIGALRM, signal.SIG_DFL)  # a hang kills this child; the parent sees the signal
+    signal.alarm(30)
     for i, (name, data) in enumerate(cases_bytes):
         out.write(json.dumps(["start", i]) + "\n")
         out.flush()
@@ -339,7 +339,28 @@ def _exec_wds(scn, res, tr):
             res.probe("wds_unknown_suffix")
         if not fired and case["name"] == "right":
             res.probe("wds_valid_image")
-    recs, status = _run_cases_forked(cb)
+    # A child that dies (alarm or native crash) while a THIRD-PARTY decoder (libsndfile, HDF5, torch, numpy) chews on
+    # damaged bytes is counted and skipped: the hook cannot swallow that and the library cannot repair it (observed:
+    # HDF5 loops for ever on some two-bit-flip images). The same inside the repository's own SPHERE decoder is a violation.
+    recs, status = [], 0
+    start = 0
+    dep_deaths = []
+    while start < len(cb):
+        part, st = _run_cases_forked(cb[start:])
+        for r in part:
+            r[1] += start
+        recs.extend(part)
+        if st == 0:
+            break
+        _, sig, idx = st
+        idx = start + max(idx, 0)
+        if meta[idx][3].endswith(".sph"):
+            status = ("signal", sig, idx)
+            break
+        dep_deaths.append((idx, sig))
+        res.probe("dependency_hang" if sig == signal.SIGALRM else "dependency_crash")
+        tr.log("wds_dependency_death", idx, meta[idx][3], sig)
+        start = idx + 1
     for r in recs:
         i = r[1]
         tr.log("wds", i, meta[i][3], len(cb[i][1]), r[0], r[2], r[3])
